@@ -171,6 +171,9 @@ class Impl:
         self.setidx = {}
         self.cur_ticks = None
         self.cur_link = None
+        self.cur_self = None
+        self.self_arr = None
+        self.self_name = None
         self.nlink = 0
         self.calls = 0
         self.reopens = 0
@@ -188,6 +191,8 @@ class Impl:
         self.blk = self.f.blocks["b"]
         self.da = self.blk.data_arrays["d"]
         self.setda = self.blk.data_arrays["sets"]
+        if self.self_name is not None:
+            self.self_arr = self.blk.data_arrays[self.self_name]
         self.reopens += 1
 
     def tick(self):
@@ -217,6 +222,17 @@ class Impl:
                 d.link_data_array(src, [-1])
                 self.cur_link = key
             return d
+        if via == "self":
+            # a 1-D array described by its own values (append_range_dimension_using_self)
+            if self.cur_self != key:
+                self.nlink += 1
+                arr = self.blk.create_data_array("self%d" % self.nlink, "t",
+                                                 data=self.np.array([fl(t) for t in ticks], dtype=float))
+                arr.append_range_dimension_using_self()
+                self.cur_self = key
+                self.self_arr = arr
+                self.self_name = "self%d" % self.nlink
+            return self.self_arr.dimensions[0]
         d = self.da.dimensions[2]
         if self.cur_ticks != key:
             d.ticks = [fl(t) for t in ticks]
@@ -224,9 +240,14 @@ class Impl:
         return d
 
     def set_(self, n, via):
-        key = (n, via if n == 0 else "")
+        key = (n, via if (n == 0 or via == "link") else "")
         if key not in self.setidx:
-            if n == 0 and via == "empty":
+            if n > 0 and via == "link":
+                # labels through a DimensionLink to a 1-D array of n values
+                src = self.blk.create_data_array("labels%d" % n, "t", data=self.np.arange(n, dtype=float))
+                d = self.setda.append_set_dimension()
+                d.link_data_array(src, [-1])
+            elif n == 0 and via == "empty":
                 self.setda.append_set_dimension([])
             elif n == 0:
                 self.setda.append_set_dimension()
@@ -532,7 +553,7 @@ def gen_cases(ctx):
         r = rng.random()
         ticks = [] if r < 0.03 else gen_ticks(rng, big=(r > 0.97))
         tj = [fs(t) for t in ticks]
-        via = {"via": "link"} if (ticks and rng.random() < 0.06) else None
+        via = {"via": rng.choice(["link", "self"])} if (ticks and rng.random() < 0.08) else None
         for p in tick_positions(rng, ticks):
             c = ["range_index_of", tj, fs(p), rng.choice(MODES)]
             add("range.index_of", c + [via] if via else c)
@@ -561,7 +582,7 @@ def gen_cases(ctx):
 
     for _ in range(ctx.budget(2500, 25000)):
         n = rng.choice([0, 0, 1, 2, 3, 5, 12])
-        via = {"via": rng.choice(["none", "empty"])} if n == 0 else None
+        via = {"via": rng.choice(["none", "empty"])} if n == 0 else ({"via": "link"} if rng.random() < 0.1 else None)
         c = ["set_index_of", n, fs(set_positions(rng, n)), rng.choice(MODES)]
         add("set.index_of", c + [via] if via else c)
         if rng.random() < 0.5:
@@ -634,7 +655,7 @@ def correspondence(ctx):
                     "(offset + interval*r with every float operation exact: must agree exactly) and on arbitrary "
                     "doubles (classified separated / marginal by exact decision margins, 2^-40 relative; marginal "
                     "cases counted and skipped); range with ascending ticks incl. repeats, single, none, 50-300 ticks, "
-                    "stored / linked / unsorted-through-link; set with 0 (none / empty) to 12 labels; positions on, "
+                    "stored / linked to an array / the array's own values / unsorted-through-link; set with 0 (none / empty) to 12 labels (stored or linked); positions on, "
                     "between, a hair beside, before, after the samples; all IndexMode members and aliases, both "
                     "SliceModes, unknown modes, negative intervals; position_at / tick_at / axis incl. negative "
                     "indices. Implementation = real nixio dimensions in one real HDF5 file, reopened every 1500 calls. "
